@@ -15,6 +15,8 @@ from redcheck import tla_set
 
 PROP = 'C02'
 OPERANDS = ['A', 'B', 'G', 'P', 'Tz', 'D', 'AcB', 'GcA', 'ApB', 'I2v', 'I3v', 'H2', 'H3', 'AI', 'DI', 'R1', 'R1T', 'Hq']
+# operands whose parameters are integers (they can be built on int32 data)
+INT_OK = {'A', 'B', 'G', 'P', 'D', 'AcB', 'GcA', 'ApB', 'I2v', 'I3v', 'H2', 'H3'}
 THIRDS_Q = ['A', 'AcB', 'ApB', 'I2v', 'H2', 'AI', 'G', 'Tz']
 THIRDS_T = THIRDS_Q + ['B', 'D', 'DI', 'I3v', 'H3', 'P']
 
@@ -179,7 +181,13 @@ def execute(case: dict) -> dict:
     import terms
 
     b = terms.Builder()
-    objs = {name: b.build(t) for name, t in case['operands'].items()}
+    operands = case['operands']
+    if case.get('dt'):
+        # the same session on integer data: every parameter of the operands involved is an integer, the scalar
+        # factor is not - k * A, A * k and A / k must still be the exact scalar multiples
+        from termcheck import _retype
+        operands = {name: _retype(t, case['dt']) for name, t in operands.items() if name in INT_OK}
+    objs = {name: b.build(t) for name, t in operands.items()}
     e = case['expr']
     out = {'id': case['id'], 'raised': None}
     try:
@@ -285,6 +293,13 @@ def run(tier: str, seed: int) -> int:
         res = fx.replay('c02', 'execute', sub, x64=x64, procs=fx.NPROC, chunksize=max(4, len(sub) // 48))
         acc += judge(sub, res, verd, 'x64' if x64 else 'x32')
         n += len(res)
+    # one-call sessions over integer-parameter operands once more on int32 data (the scalar may be fractional)
+    ints = [dict(c, dt='i32', id=c['id'] + '-i32') for c in cases
+            if (len(c['expr']) == 3 or (len(c['expr']) == 5 and c['expr'][0] in ('neg', 'pos', 'lmul', 'rmul', 'div')))
+            and all(nm in INT_OK for nm in c['expr'][1:(3 if len(c['expr']) == 3 else 2)])]
+    ires = fx.replay('c02', 'execute', ints, x64=False, procs=fx.NPROC, chunksize=max(4, len(ints) // 48))
+    acc += judge(ints, ires, verd, 'x32:i32')
+    n += len(ires)
     rc = verd.finish()
     fx.write_evidence(PROP, tier, seed, {
         'states': gen.distinct + ses.distinct, 'transitions': gen.generated + ses.generated, 'traces_validated_against_impl': acc,
@@ -297,6 +312,7 @@ def run(tier: str, seed: int) -> int:
         'exhaustive': len(picked) == len(cases) and len(spick) == len(sessions), 'emitted_sessions': len(cases), 'replayed': len(picked),
         'heap_sessions': {'emitted': len(sessions), 'replayed': len(spick), 'distinct_states': ses.distinct,
                           'note': 'MC_Session.tla: histories of new / @ / + / - / neg / scale / .T / .I / reduce() on a heap'},
+        'int32_data_sessions': len(ints),
         'samples': [picked[0]['expr'], picked[len(picked) // 2]['expr'], picked[-1]['expr']],
     }, ['singular operands of lazy inverses excluded; NumPy ndarray left factors are handled by NumPy itself',
         'associativity is checked by TLC on all triples (ASSUME) and on the replayed two-call sessions of both groupings'],
